@@ -54,11 +54,31 @@ def closure_key(cl):
     while b.get('k') == 'Block' and not b['stmts'] and b.get('expr'):
         b = b['expr']
     parts = []
+    b = strip(b)
     while b.get('k') == 'Field':
         parts.append(b['name'])
-        b = b['e']
+        b = strip(b['e'])
     if b.get('k') == 'Path':
+        # `|(id, _)| *id`: the binding is a component of a tuple pattern - that position is the leading projection
+        prm = (cl.get('params') or [None])[0]
+        lead = tuple_position(prm, b.get('id')) if prm else None
+        if lead is not None:
+            parts.append(str(lead))
         return '.' + '.'.join(reversed(parts)) if parts else '.'
+    return None
+
+
+def tuple_position(pat, local_id):
+    while pat and pat.get('k') in ('Ref', 'Deref'):
+        pat = pat.get('p')
+    if not pat or pat.get('k') != 'Tuple':
+        return None
+    for i, sp in enumerate(pat.get('pats', [])):
+        q = sp
+        while q and q.get('k') in ('Ref', 'Deref'):
+            q = q.get('p')
+        if q and q.get('k') == 'Bind' and q.get('id') == local_id:
+            return i
     return None
 
 
